@@ -128,6 +128,21 @@ impl Property for C10 {
                 }
             }
         }
+        // a monomial with two parameter factors of which one is tiny and the other huge (1e-20 * 1e20 * x):
+        // a prefix of the product is far below machine epsilon, the product itself is ordinary
+        let mut tiny_huge: Option<(u64, u64)> = None;
+        if regime == Regime::R && pids.len() >= 2 && !g.pool.is_empty() && rng.chance(1, 4) {
+            let mut two = pids.clone();
+            rng.shuffle(&mut two);
+            let x = *rng.pick(&g.pool);
+            let mut terms = stored_terms(&opt_fn(&inst.objective));
+            let mut ids = vec![two[0], two[1], x];
+            rng.shuffle(&mut ids);
+            terms.push((ids, *rng.pick(&[1.0, -2.5, 0.75])));
+            inst.objective = Some(f_polynomial(polynomial(terms)));
+            tiny_huge = Some((two[0], two[1]));
+            mon.facet("monomial-with-a-tiny-and-a-huge-parameter");
+        }
         let mut pi = v1::ParametricInstance::default();
         pi.description = inst.description.clone();
         pi.decision_variables = inst.decision_variables.clone();
@@ -147,6 +162,11 @@ impl Property for C10 {
         // assignment
         let scenario = if pids.is_empty() { rng.below(2) } else { rng.below(5) };
         let mut assign: BTreeMap<u64, f64> = pids.iter().map(|p| (*p, value_x(rng, regime))).collect();
+        if let Some((a, b)) = tiny_huge {
+            let (s, t) = *rng.pick(&[(1e-20, 1e20), (1e-9, 2.5e18), (4e-17, 2.5e16)]);
+            assign.insert(a, s);
+            assign.insert(b, t);
+        }
         let sname = match scenario {
             0 => "complete",
             1 => {
